@@ -135,7 +135,8 @@ class Lower:
     def e_BoolBinopNode(self, n): return f"({self.e(n.operand1)} {n.operator} {self.e(n.operand2)})"
 
     def e_CondExprNode(self, n):
-        return f"({self.e(n.true_val)} if {self.e(n.test)} else {self.e(n.false_val)})"
+        test = getattr(n, "test", None) or getattr(n, "condition", None)
+        return f"({self.e(n.true_val)} if {self.e(test)} else {self.e(n.false_val)})"
 
     def e_PrimaryCmpNode(self, n):
         s = f"{self.e(n.operand1)} {self.op(n.operator)} {self.e(n.operand2)}"
